@@ -531,4 +531,76 @@ theorem safeNorm3_eq (v : V3 ℝ) :
 
 end Normalize
 
+section FromTo
+
+/-- the un-normalised `from_to` quaternion `(1 + v₁·v₂, v₁ × v₂)` rotates the unit vector `v₁`
+to `2(1 + v₁·v₂)·v₂` (a ring identity modulo `|v₁| = |v₂| = 1`) -/
+theorem rotate_fromTo_raw {K : Type} [Field K] (v1 v2 : V3 K) (h1 : V3.dot v1 v1 = 1) (h2 : V3.dot v2 v2 = 1) :
+    Gen.rotate v1 ⟨1 + V3.dot v1 v2, (V3.cross v1 v2).x, (V3.cross v1 v2).y, (V3.cross v1 v2).z⟩
+      = V3.smul (2 * (1 + V3.dot v1 v2)) v2 := by
+  simp only [V3.dot] at h1 h2
+  simp only [Gen.rotate, V3.dot, V3.cross, V3.smul]
+  congr 1
+  · linear_combination (-(v1.x * (v2.x * v2.x + v2.y * v2.y + v2.z * v2.z)) + 2 * (1 + (v1.x * v2.x + v1.y * v2.y + v1.z * v2.z)) * v2.x) * h1 + (-v1.x) * h2
+  · linear_combination (-(v1.y * (v2.x * v2.x + v2.y * v2.y + v2.z * v2.z)) + 2 * (1 + (v1.x * v2.x + v1.y * v2.y + v1.z * v2.z)) * v2.y) * h1 + (-v1.y) * h2
+  · linear_combination (-(v1.z * (v2.x * v2.x + v2.y * v2.y + v2.z * v2.z)) + 2 * (1 + (v1.x * v2.x + v1.y * v2.y + v1.z * v2.z)) * v2.z) * h1 + (-v1.z) * h2
+
+/-- rotating by a scaled quaternion scales the result by the square -/
+theorem rotate_scale {K : Type} [Field K] (v : V3 K) (q : Q4 K) (c : K) :
+    Gen.rotate v ⟨q.w * c, q.x * c, q.y * c, q.z * c⟩ = V3.smul (c * c) (Gen.rotate v q) := by
+  simp only [Gen.rotate, V3.smul]; congr 1 <;> ring
+
+/-- **`from_to` produces the rotation it describes** (partial: the non-antiparallel branch
+`1 + v₁·v₂ ≥ 1e-6`; in the antiparallel branch the code uses a fixed pseudo-random axis and the
+result is only approximately a half-turn): for unit vectors, the quaternion is unit and rotates
+`v₁` exactly onto `v₂`. -/
+theorem fromTo_rotates_partial (v1 v2 : V3 ℝ) (h1 : V3.dot v1 v1 = 1) (h2 : V3.dot v2 v2 = 1)
+    (hnp : ¬ (1 + V3.dot v1 v2 < (1e-6 : ℝ))) :
+    Gen.rotate v1 (Gen.fromTo v1 v2) = v2 ∧ Q4.normSq (Gen.fromTo v1 v2) = 1 := by
+  have hd : V3.dot v1 v2 = v1.x * v2.x + v1.y * v2.y + v1.z * v2.z := rfl
+  have hc : ¬ (1 + (v1.x * v2.x + v1.y * v2.y + v1.z * v2.z) < (1e-6 : ℝ)) := by rwa [hd] at hnp
+  set c := v1.x * v2.x + v1.y * v2.y + v1.z * v2.z with hcdef
+  have hpos : 0 < 1 + c := by
+    have : (1e-6 : ℝ) ≤ 1 + c := not_lt.mp hc
+    linarith [show (0 : ℝ) < 1e-6 by norm_num]
+  -- |(1+c, v1 × v2)|² = 2 (1 + c)
+  have hnorm : (1 + c) * (1 + c) + (v1.y * v2.z - v1.z * v2.y) * (v1.y * v2.z - v1.z * v2.y)
+      + (v1.z * v2.x - v1.x * v2.z) * (v1.z * v2.x - v1.x * v2.z)
+      + (v1.x * v2.y - v1.y * v2.x) * (v1.x * v2.y - v1.y * v2.x) = 2 * (1 + c) := by
+    simp only [V3.dot] at h1 h2
+    rw [hcdef]
+    linear_combination (v2.x * v2.x + v2.y * v2.y + v2.z * v2.z) * h1 + h2
+  have hs : 0 < Real.sqrt (2 * (1 + c)) := Real.sqrt_pos.mpr (by linarith)
+  have hss : Real.sqrt (2 * (1 + c)) * Real.sqrt (2 * (1 + c)) = 2 * (1 + c) :=
+    Real.mul_self_sqrt (by linarith)
+  have hq : Gen.fromTo v1 v2
+      = ⟨(1 + c) * (1 / Real.sqrt (2 * (1 + c))), (V3.cross v1 v2).x * (1 / Real.sqrt (2 * (1 + c))),
+         (V3.cross v1 v2).y * (1 / Real.sqrt (2 * (1 + c))), (V3.cross v1 v2).z * (1 / Real.sqrt (2 * (1 + c)))⟩ := by
+    simp only [Gen.fromTo, ← hcdef, hc, decide_false, Bool.false_eq_true, if_false, HasSqrt.sqrt, hnorm,
+      V3.cross]
+    congr 1 <;> ring
+  constructor
+  · rw [hq]
+    have hraw := rotate_fromTo_raw v1 v2 h1 h2
+    rw [hd] at hraw
+    rw [rotate_scale v1 ⟨1 + c, (V3.cross v1 v2).x, (V3.cross v1 v2).y, (V3.cross v1 v2).z⟩, hraw]
+    simp only [V3.smul]
+    have : 1 / Real.sqrt (2 * (1 + c)) * (1 / Real.sqrt (2 * (1 + c))) * (2 * (1 + c)) = 1 := by
+      field_simp; linarith [hss]
+    cases v2 with | mk a b d =>
+    congr 1
+    · rw [← mul_assoc, this, one_mul]
+    · rw [← mul_assoc, this, one_mul]
+    · rw [← mul_assoc, this, one_mul]
+  · rw [hq]
+    have hk : 1 / Real.sqrt (2 * (1 + c)) * (1 / Real.sqrt (2 * (1 + c))) * (2 * (1 + c)) = 1 := by
+      field_simp; linarith [hss]
+    simp only [Q4.normSq, V3.cross]
+    have hfac : ∀ (a b d e k : ℝ), a * k * (a * k) + b * k * (b * k) + d * k * (d * k) + e * k * (e * k)
+        = k * k * (a * a + b * b + d * d + e * e) := by intros; ring
+    rw [hfac, hnorm]
+    exact hk
+
+end FromTo
+
 end Brax.C09
